@@ -390,7 +390,7 @@ func TestC12Metamorphic(t *testing.T) {
 			rec.KnownHit("TestC12Metamorphic", "C12-F3", hash)
 			return
 		}
-		if rec.Unrestricted() && rec.Known("C05-F1") && d.Prog.Features().IncNested {
+		if rec.Unrestricted() && rec.Known("C05-F1") && (cohortRisk(plain) || cohortRisk(wrapped)) {
 			rec.KnownHit("TestC12Metamorphic", "C05-F1", hash)
 			return
 		}
@@ -546,4 +546,14 @@ func TestC12MultiStart(t *testing.T) {
 				History: map[string]any{"steps": out.Steps, "traces": out.Traces, "xml": out.Program.XML()}, Goroutines: out.Gs}))
 		}
 	})
+}
+
+// cohortRisk: the run was inside the pattern of known finding C05-F1, so the
+// finding can explain a failure: the engine's bookkeeping may have differed
+// from the tokens of the fork (model.CohortRisk), or an inclusive gateway
+// waited for the siblings of an enclosing inclusive fork although the BPMN
+// rule had released it (C05 allows that wait; inside a sub-process the
+// gateway does not see those siblings, so inline and wrapped runs differ).
+func cohortRisk(r *runResult) bool {
+	return r != nil && r.out != nil && (len(r.out.CohortRisk) > 0 || r.out.HeldBack)
 }
